@@ -1,164 +1,333 @@
-"""C20 — iv_inotify routes events to their watch; unregistering in handlers is safe."""
-from ..core import (names_of, same_value, AnalysisBroken, canon, strip, last_member, must_pass, relpath, norm_cond, walk, forward)
+"""C20 — iv_inotify routes events to their watch; unregistering in handlers is safe.
+
+All anchors are roles (see h20.py): the dispatcher is whatever iv_inotify_register installs as handler_in of the
+instance's iv_fd, the comparator whatever it stores into the compare slot of the instance's tree; both are
+analysed with the unit's static helpers inlined.  Obligations are read off three path-sensitive forward
+analyses (h20.Prov, h20.Walk, analyses.stale_after_callback) at the watch handler call sites, at the
+definitions of the record variable, at the steps of tree cursors and at the function exits, so that neither
+helper structure, local names, cached values, loop forms nor branch shapes matter.
+"""
+from ..core import AnalysisBroken, canon, strip, last_member, norm_cond, forward, relpath
 from .. import generic
-from ..analyses import (is_call, holding, atoms_reading, path_to, describe, exits_of, callback_kind,
-                        stale_after_callback, loops, innermost_loop)
+from ..analyses import holding, path_to, exits_of, callback_kind, stale_after_callback
 from .c11 import null_rule
-
-IN_IGNORED = 0x00008000
-IN_ONESHOT = 0x80000000
-
-
-def _mask_test(l, rec, bit):
-    l = strip(l)
-    if isinstance(l, dict) and l.get('k') == 'bin' and l['op'] == '&':
-        for a, b in ((l['l'], l['r']), (l['r'], l['l'])):
-            if last_member(a) == (rec, 'mask') and strip(b).get('k') == 'int' and (strip(b)['v'] & 0xffffffff) == bit:
-                return True
-    return False
+from . import h20
+from .h20 import INST, WATCH, IN_IGNORED, IN_ONESHOT  # noqa: F401  (re-exported constants)
 
 
 def run(ctx):
-    prog = ctx.prog
     ctx.rule('R-C20a', 'an event is dispatched to the watch looked up by the wd of the current record; a failed lookup '
-                       'skips the call; the cursor advances by the current record\'s own length', floor=3)
+                       'skips the call; the cursor advances by the current record\'s own length; watches enter the tree under the kernel\'s wd', floor=5)
     ctx.rule('R-C20b', 'kernel-removed (IN_IGNORED) and one-shot watches leave the set before their handler runs', floor=1)
     ctx.rule('R-C20c', 'instance unregister aborts the walk: nothing of the instance or a watch is touched after a handler '
-                       'unless the local instance pointer was re-tested; unregister clears that pointer through term iff set', floor=3)
+                       'unless the local instance pointer was re-tested; unregister clears that pointer through term iff set; '
+                       'watch unregister removes the watch from the tree', floor=6)
     ctx.rule('R-C20d', 'INIT-COMPLETE for iv_inotify / iv_inotify_watch', floor=4)
     ctx.rule('R-C20g', 'NULL-CONTRADICTION in iv_inotify.c', floor=1)
     ctx.rule('R-C20.cmp', 'watch comparator orders by wd; the lookup descends left/right/returns in agreement with it', floor=6)
     ctx.section(cmp_rules)
     ctx.section(dispatch)
+    ctx.section(record_walk)
     ctx.section(stale)
-    ctx.section(lambda c: generic.init_complete(c, 'R-C20d', kinds={'iv_inotify', 'iv_inotify_watch'}))
+    ctx.section(unregister)
+    ctx.section(membership)
+    ctx.section(init_complete)
     ctx.section(lambda c: null_rule(c, 'R-C20g', ('iv_inotify.c',)))
 
 
+def _sign(v):
+    return (v > 0) - (v < 0) if isinstance(v, int) else None
+
+
 def cmp_rules(ctx):
-    from .. import cmprules
-    cmprules.key_comparator(ctx, 'R-C20.cmp', '__iv_inotify_watch_compare', 'wd')
-    cmprules.descent(ctx, 'R-C20.cmp', '__find_watch', 'wd', on_equal='return')
+    """The comparator installed in the instance's tree orders by wd (finite evaluation over the three orderings);
+    the dispatcher's lookup moves a tree cursor to ->left only where the branches taken establish
+    (wd of the record) < (wd of the node), to ->right only where they establish >, and gives a record up
+    (no delivery) only after a cursor was found NULL."""
+    prog = ctx.prog
+    f = h20.comparator(prog)
+    res, problem = h20.comparator_signs(prog, f, WATCH, 'an', 'wd')
+    for o, r in res:
+        want = {'<': -1, '=': 0, '>': 1}[o]
+        ctx.ob('R-C20.cmp', 'comparator:wd(a)%swd(b)' % o, problem is None and _sign(r) == want, loc=f.loc,
+               detail=('the function stored into the compare slot of the instance tree does not order by wd: %s' % problem) if problem else
+                      'the function stored into the compare slot of the instance tree returns %s, expected sign %d' % (r, want), fn=f.q)
+    p = h20.prov(prog)
+    if not p.tree_reads:
+        raise AnalysisBroken('the dispatcher never reads the root (or min/max) of the instance\'s watch tree')
+    for d, rel, inst in (('left', '<', 'lookup:left-only-if-less'), ('right', '>', 'lookup:right-only-if-greater')):
+        sites = sorted((loc, obs) for (loc, dd), obs in p.steps.items() if dd == d)
+        bad = [(loc, o) for loc, obs in sites for o in obs if not o[0]]
+        ctx.ob('R-C20.cmp', inst, not bad, loc=(bad[0][0] if bad else (sites[0][0] if sites else p.tree_reads[0])),
+               detail=('`%s` is taken on a path on which (record wd) %s (node wd) is not established for a node found in the instance tree'
+                       % (bad[0][1][1], rel)) if bad else
+                      ('every step to ->%s (%d site(s)) is taken only where (record wd) %s (node wd) holds' % (d, len(sites), rel) if sites else
+                       'the lookup never steps to ->%s; that no element is skipped is demanded by lookup:miss-only-at-null' % d),
+               fn=p.g.q)
+    bad = sorted(loc for loc, oks in p.miss.items() if not all(oks))
+    ctx.ob('R-C20.cmp', 'lookup:miss-only-at-null', not bad, loc=bad[0] if bad else p.tree_reads[0],
+           detail='a record is given up (next record / return reached without a handler call) although no tree cursor was found NULL'
+                  if bad else 'a record is left without delivery only after a cursor into the instance tree was found NULL', fn=p.g.q)
 
 
 def dispatch(ctx):
+    """At every call of a watch handler, in every abstract state: the watch was read out of the instance's tree
+    since the last user callback and the branches taken establish watch wd == wd of the record passed (R-C20a);
+    it is non-NULL; the arguments are its cookie and that record; it was deleted from the instance tree unless
+    IN_IGNORED is known clear in the record's mask and IN_ONESHOT in the watch's (R-C20b)."""
     prog = ctx.prog
-    f = prog.fn('iv_inotify_got_event')
-    sites = [e for e in f.events() if callback_kind(e) == ('callback', 'inotify_watch')]
-    if not sites:
-        raise AnalysisBroken('watch handler call site not found')
-    hd = holding(f)
-    lps = loops(f)
-    for cs in sites:
-        wv = canon(strip(cs['fnexpr'])['base'])
-        # reaching definition of the watch variable: the lookup by wd of the current record
-        defs = [e for e in f.events() if e['ev'] == 'store' and canon(e['lhs']) == wv]
-        ok = bool(defs)
-        recvar = None
-        for d in defs:
-            c = strip(d['rhs'])
-            if not (isinstance(c, dict) and c.get('k') == 'call' and c.get('callee') == '__find_watch'):
-                ok = False
-                continue
-            a1 = strip(c['args'][1])
-            if last_member(a1) != ('inotify_event', 'wd'):
-                ok = False
-            else:
-                recvar = canon(a1['base'])
-        ctx.ob('R-C20a', 'dispatch:lookup-by-wd', ok, loc=cs['loc'],
-               detail='%s is only ever assigned __find_watch(instance, %s->wd)' % (wv, recvar), fn=f.q)
-        # the event record handed to the handler is that same record
-        arg_ok = len(cs['args']) >= 2 and canon(cs['args'][1]) == recvar and last_member(cs['args'][0]) == ('iv_inotify_watch', 'cookie') \
-            and canon(strip(cs['args'][0])['base']) == wv
-        ctx.ob('R-C20a', 'dispatch:args', arg_ok, loc=cs['loc'],
-               detail='handler(%s) receives the watch\'s cookie and the current record' % ', '.join(canon(a) for a in cs['args']), fn=f.q)
-        A = hd.get((cs['_b'], cs['_i']), frozenset())
-        ctx.ob('R-C20a', 'dispatch:lookup-failed-skips', any(a[0] == '!=' and a[1] == wv and a[2] == '0' for a in A), loc=cs['loc'],
-               detail='the call is on the non-NULL edge of the lookup result', fn=f.q)
-        # cursor advance
-        h = innermost_loop(f, cs['_b'], lps)
-        adv = [e for e in f.events() if e['ev'] == 'store' and e['op'] in ('+=', '=') and e['_b'] in lps.get(h, ())
-               and any(last_member(x) == ('inotify_event', 'len') for x in walk(e.get('rhs', {})) if x.get('k') == 'member')]
-        size = prog.records.get('inotify_event', {}).get('size')
-        ok = False
-        for e in adv:
-            ints = [x['v'] for x in walk(e['rhs']) if x.get('k') == 'int']
-            lens = [x for x in walk(e['rhs']) if x.get('k') == 'member' and last_member(x) == ('inotify_event', 'len')]
-            if size in ints and all(canon(x['base']) == recvar for x in lens):
-                ok = True
-        ctx.ob('R-C20a', 'walk:cursor-advance', ok and bool(adv), loc=adv[0]['loc'] if adv else cs['loc'],
-               detail='cursor advances by sizeof(struct inotify_event)=%s + %s->len of the current record' % (size, recvar), fn=f.q)
+    p = h20.prov(prog)
+    w = h20.the_walk(prog)
+    if not p.handler_sites:
+        raise AnalysisBroken('watch handler call site not found in the dispatcher %s' % p.g.q)
+    for loc in p.handler_sites:
+        sts = p.sites.get(loc)
+        if not sts:
+            raise AnalysisBroken('watch handler call at %s is not reached by the provenance analysis' % relpath(loc))
+        s0 = sts[0]
+        bad = [s for s in sts if not (s['found'] and s['match'])]
+        ctx.ob('R-C20a', 'dispatch:lookup-by-wd', not bad, loc=loc,
+               detail=('%s is called although %s' % (s0['watch'] + '->handler',
+                       'the watch was not read out of the instance\'s tree since the last handler ran' if not bad[0]['found'] else
+                       'its wd is not established equal to the wd of the record passed')) if bad else
+                      '%s was found in the instance tree in this iteration and its wd equals %s->wd' % (s0['watch'], s0['rec']), fn=p.g.q)
+        deliv = w.delivered.get(loc, [])
+        ok = all(s['cookie'] and s['recarg'] for s in sts) and bool(deliv) and all(deliv)
+        ctx.ob('R-C20a', 'dispatch:args', ok, loc=loc,
+               detail='the handler receives the cookie of the watch it belongs to and the record being walked (whose wd was looked up)', fn=p.g.q)
+        ctx.ob('R-C20a', 'dispatch:lookup-failed-skips', all(s['nonnull'] for s in sts), loc=loc,
+               detail='the watch is known non-NULL at the call (a failed lookup does not reach it)', fn=p.g.q)
+        bad = [s for s in sts if not s['dropped']]
+        ctx.ob('R-C20b', 'dispatch:delete-before-handler', not bad, loc=loc,
+               detail=('the handler runs on a path on which the watch was not deleted from the instance tree and %s' % bad[0]['why']) if bad else
+                      'on every path the watch was deleted from the instance tree before the call, or IN_IGNORED (record) and IN_ONESHOT (watch) are known clear',
+               fn=p.g.q)
 
-        # ---- R-C20b ----
-        def tr(e, s, wv=wv):
-            if is_call(e, 'iv_avl_tree_delete') and canon(e['args'][1]) == '&%s->an' % wv:
-                return False
-            if e['ev'] == 'store' and canon(e['lhs']) == wv:
-                return False
-            return s
-        def edge(blk, si, s):
-            if blk.term and blk.term.get('cond') is not None and len(blk.succ) == 2:
-                for (op, lc, rc, l, r) in norm_cond(blk.term['cond'], si == 0):
-                    if op == '!=' and rc == '0' and (_mask_test(l, 'inotify_event', IN_IGNORED) or _mask_test(l, 'iv_inotify_watch', IN_ONESHOT)):
-                        return True
-            return s
-        _, ev_in = forward(f, False, tr, lambda a, b: a or b, edge=edge)
-        pending = ev_in.get((cs['_b'], cs['_i']))
-        seen_tests = sum(1 for b in f.blocks.values() if b.term and b.term.get('cond') is not None for pol in (True,)
-                         for (op, lc, rc, l, r) in norm_cond(b.term['cond'], pol)
-                         if _mask_test(l, 'inotify_event', IN_IGNORED) or _mask_test(l, 'iv_inotify_watch', IN_ONESHOT))
-        seen_ign = any(_mask_test(l, 'inotify_event', IN_IGNORED) for b in f.blocks.values() if b.term and b.term.get('cond') is not None
-                       for (op, lc, rc, l, r) in norm_cond(b.term['cond'], True))
-        seen_one = any(_mask_test(l, 'iv_inotify_watch', IN_ONESHOT) for b in f.blocks.values() if b.term and b.term.get('cond') is not None
-                       for (op, lc, rc, l, r) in norm_cond(b.term['cond'], True))
-        if not (seen_ign and seen_one):
-            # is the flag read anywhere in the function (then we cannot follow it: analysis broken), or not at all (violation)?
-            reads_watch_mask = any(x.get('k') == 'member' and last_member(x) == ('iv_inotify_watch', 'mask') for e in f.events() for x in walk(e))
-            reads_event_mask = any(x.get('k') == 'member' and last_member(x) == ('inotify_event', 'mask') for e in f.events() for x in walk(e)) or \
-                any(x.get('k') == 'member' and last_member(x) == ('inotify_event', 'mask') for b in f.blocks.values() if b.term for x in walk(b.term))
-            if (not seen_one and not reads_watch_mask) or (not seen_ign and not reads_event_mask):
-                ctx.ob('R-C20b', 'dispatch:delete-before-handler', False, loc=cs['loc'],
-                       detail='the dispatcher never examines %s: such watches are not dropped from the instance before their handler runs'
-                              % ('the watch\'s IN_ONESHOT flag' if not seen_one else 'the record\'s IN_IGNORED flag'), fn=f.q)
-                continue
-            raise AnalysisBroken('IN_IGNORED / IN_ONESHOT tests not found as branch conditions in the dispatcher')
-        ctx.ob('R-C20b', 'dispatch:delete-before-handler', pending is False, loc=cs['loc'],
-               detail='on every path on which the record says IN_IGNORED or the watch is one-shot, the watch was deleted from the tree before its handler is called', fn=f.q)
 
+def record_walk(ctx):
+    """Every definition of the record variable is the start of the buffer read() filled, or the previous record
+    + sizeof(struct inotify_event) + its len (linear forms, any cursor representation by pointer)."""
+    prog = ctx.prog
+    w = h20.the_walk(prog)
+    if not w.recdefs:
+        raise AnalysisBroken('no definition of a struct inotify_event pointer in the dispatcher')
+    for loc, vals in sorted(w.recdefs.items()):
+        bad = [v for v in vals if not w.recdef_ok(v)]
+        ctx.ob('R-C20a', 'walk:cursor-advance', not bad, loc=loc,
+               detail=('the record is taken from %s; expected the start of the read() buffer (%s) or previous record + %d + 1*len'
+                       % (w.show(bad[0]), ', '.join(sorted(w.readbufs)) or 'none found', w.recsize)) if bad else
+                      'record = start of %s, or previous record + sizeof(struct inotify_event)=%d + its len' % ('/'.join(sorted(w.readbufs)), w.recsize),
+               fn=w.g.q)
 
 
 def stale(ctx):
     prog = ctx.prog
-    f = prog.fn('iv_inotify_got_event')
-    reps, objvars, markers = stale_after_callback(f, lambda e: (callback_kind(e) or ('', ''))[0] == 'callback' and callback_kind(e)[1])
-    byvar = {}
-    for (e, v, acc, cb) in reps:
-        byvar.setdefault(v, []).append((e, acc))
-    for v in sorted(objvars):
-        bad = byvar.get(v, [])
+    p = h20.prov(prog)
+    g = h20.with_address_copies_resolved(p.g)
+
+    def is_cb(e):
+        k = callback_kind(e)
+        if k and k[0] == 'callback':
+            return k[1]
+        return 'inotify_watch' if p.is_watch_handler_call(e) else None
+    reps, objvars, markers = stale_after_callback(g, is_cb)
+    kinds = sorted(set(objvars.values()))
+    if INST not in kinds:
+        raise AnalysisBroken('the dispatcher holds no pointer to the instance')
+    for rec in kinds:
+        bad = [(e, v, acc) for (e, v, acc, cb) in reps if objvars.get(v) == rec]
         e0 = bad[0][0] if bad else None
-        ctx.ob('R-C20c', 'stale:%s' % v, not bad, loc=e0['loc'] if e0 else f.loc,
-               detail=('`%s` is used after a handler ran without re-testing its liveness marker: %s' % (v, ', '.join(sorted({a for _, a in bad}))))
-               if bad else 'no use of `%s` after a handler without reassignment / marker test (markers: %s)' % (v, sorted(markers) or '-'),
-               path=path_to(f, e0) if e0 else None, fn=f.q)
+        vs = sorted(v for v in objvars if objvars[v] == rec)
+        ctx.ob('R-C20c', 'stale:%s' % rec, not bad, loc=e0['loc'] if e0 else g.loc,
+               detail=('`%s` is used after a handler ran without re-testing its liveness marker: %s'
+                       % (bad[0][1], ', '.join(sorted({a for _, _, a in bad}))))
+               if bad else 'no use of a struct %s pointer (%s) after a handler without reassignment / marker test (markers: %s)'
+                           % (rec, ', '.join(vs), sorted(markers) or '-'),
+               path=path_to(g, e0) if e0 else None, fn=g.q)
+    # the published address of the local instance pointer does not outlive the walk
+    pubs = [e for e in g.events() if e['ev'] == 'store' and last_member(e['lhs']) == (INST, 'term') and 'rhs' in e
+            and isinstance(strip(e['rhs']), dict) and strip(e['rhs']).get('k') == 'addr' and h20.lvar(strip(e['rhs'])['e']) is not None]
+    if not pubs:
+        return
+    pubvars = {h20.lvar(strip(e['rhs'])['e'])['name'] for e in pubs}
+
+    def tr(e, s):
+        if e['ev'] == 'store' and last_member(e['lhs']) == (INST, 'term'):
+            return any(e is x for x in pubs)
+        return s
+
+    def edge(blk, si, s):
+        if s and blk.term and blk.term.get('cond') is not None and len(blk.succ) == 2:
+            for (op, lc, rc, l, r) in norm_cond(blk.term['cond'], si == 0):
+                if op == '==' and rc == '0' and lc in pubvars:
+                    return False
+        return s
+    # ... and is in place whenever a handler runs (the liveness marker the rule above relies on is real)
+    _, pub_in = forward(g, False, tr, lambda a, b: a and b)
+    calls = [e for e in g.events() if p.is_watch_handler_call(e)]
+    ctx.ob('R-C20c', 'walk:term-published-at-handler', bool(calls) and all(pub_in.get((e['_b'], e['_i']), False) for e in calls),
+           loc=pubs[0]['loc'], detail='on every path to a watch handler call the instance\'s term points at the dispatcher\'s local '
+                                      'instance pointer (%s)' % ', '.join(sorted(pubvars)), fn=g.q)
+    _, ev_in = forward(g, False, tr, lambda a, b: a or b, edge=edge)
+    pts = [(pb, pi) for (pb, pi, _) in exits_of(g)] + [(g.exit, 0)]
+    ctx.ob('R-C20c', 'walk:term-reset-when-alive', not any(ev_in.get(pt, False) for pt in pts), loc=pubs[0]['loc'],
+           detail='on every path to a return after `term` was pointed at the local instance pointer, term is reset '
+                  'or the instance is known gone (local pointer NULL)', fn=g.q)
+
+
+def unregister(ctx):
+    prog = ctx.prog
     fu = prog.fn('iv_inotify_unregister')
-    hdu = holding(fu)
-    clr = [e for e in fu.events() if e['ev'] == 'store' and strip(e['lhs']).get('k') == 'deref'
-           and last_member(strip(e['lhs'])['e']) == ('iv_inotify', 'term')]
-    ctx.ob('R-C20c', 'unregister:clears-through-term', bool(clr) and all(canon(e['rhs']) in ('NULL', '0') for e in clr), loc=clr[0]['loc'] if clr else fu.loc,
-           detail='*this->term = NULL', fn=fu.q)
+    g = h20.inlined_local(prog, fu)
+    defs = h20._single_defs(g)
+    term_locals = {n for n, d in defs.items() if last_member(d['rhs']) == (INST, 'term')}
+
+    def is_term(x):
+        if last_member(x) == (INST, 'term'):
+            return True
+        v = h20.lvar(x)
+        return v is not None and v['name'] in term_locals
+
+    def through_term(lhs):
+        s = strip(lhs)
+        if not isinstance(s, dict):
+            return False
+        if s.get('k') == 'deref':
+            return is_term(s['e'])
+        if s.get('k') == 'index':
+            return is_term(s['base']) and h20.const_of(s['idx']) == 0
+        return False
+    clr = [e for e in g.events() if e['ev'] == 'store' and through_term(e['lhs'])]
+    ctx.ob('R-C20c', 'unregister:clears-through-term', bool(clr) and all(h20.const_of(e['rhs']) == 0 for e in clr if 'rhs' in e)
+           and all('rhs' in e for e in clr), loc=clr[0]['loc'] if clr else fu.loc,
+           detail='iv_inotify_unregister stores NULL through the instance\'s term pointer', fn=fu.q)
+    hdu = holding(g)
+    byloc = {}
     for e in clr:
         A = hdu.get((e['_b'], e['_i']), frozenset())
-        ok = any(a[0] == '!=' and a[2] == '0' and ('iv_inotify', 'term') in a[3] for a in A)
-        ctx.ob('R-C20c', 'unregister:term-tested', ok, loc=e['loc'], detail='the store through term is on the term != NULL edge', fn=fu.q)
-    # on the term != NULL edge the store is reached on every path
-    from ..analyses import must_pass_from_block
-    for b, blk in fu.blocks.items():
+        ok = any(a[0] == '!=' and a[2] == '0' and ((INST, 'term') in a[3] or a[1] in term_locals) for a in A)
+        byloc[e['loc']] = byloc.get(e['loc'], True) and ok
+    for loc, ok in sorted(byloc.items()):
+        ctx.ob('R-C20c', 'unregister:term-tested', ok, loc=loc, detail='the store through term is reached only where term != NULL holds', fn=fu.q)
+
+    # at every return: the walker's pointer was cleared, or term is known NULL (no walk in progress)
+    def tr(e, s):
+        return True if any(e is x for x in clr) else s
+
+    def edge(blk, si, s):
         if blk.term and blk.term.get('cond') is not None and len(blk.succ) == 2:
-            for si in (0, 1):
-                for (op, lc, rc, l, r) in norm_cond(blk.term['cond'], si == 0):
-                    if op == '!=' and rc == '0' and last_member(l) == ('iv_inotify', 'term'):
-                        mp = must_pass_from_block(fu, blk.succ[si], lambda e: e in clr)
-                        pts = [(pb, pi) for (pb, pi, _) in exits_of(fu)] + [(fu.exit, 0)]
-                        ctx.ob('R-C20c', 'unregister:term-set-implies-clear', all(mp.get(p, True) for p in pts), loc=blk.term.get('loc'),
-                               detail='when a walk is in progress (term set) unregister always nulls the walker\'s instance pointer', fn=fu.q)
+            for (op, lc, rc, l, r) in norm_cond(blk.term['cond'], si == 0):
+                if op == '==' and rc == '0' and isinstance(l, dict) and is_term(l):
+                    return True
+        return s
+    _, ev_in = forward(g, False, tr, lambda a, b: a and b, edge=edge)
+    pts = [(pb, pi) for (pb, pi, _) in exits_of(g)] + [(g.exit, 0)]
+    ctx.ob('R-C20c', 'unregister:term-set-implies-clear', all(ev_in.get(pt, True) for pt in pts), loc=clr[0]['loc'] if clr else fu.loc,
+           detail='when a walk is in progress (term set) unregister always nulls the walker\'s instance pointer: '
+                  'every return is reached through the store or through a term == NULL edge', fn=fu.q)
+
+
+def membership(ctx):
+    """The set the dispatcher looks records up in is maintained by the public watch API: registration inserts the
+    watch into the tree of its own instance under the wd the kernel returned, unregistration always removes it
+    (which, with `found since the last handler`, is what suppresses deliveries to an unregistered watch)."""
+    prog = ctx.prog
+    for name, prim in (('iv_inotify_watch_register', 'iv_avl_tree_insert'), ('iv_inotify_watch_unregister', 'iv_avl_tree_delete')):
+        f = prog.fn(name)
+        g = h20.inlined_local(prog, f)
+        if not f.params:
+            raise AnalysisBroken('%s takes no watch' % name)
+        wp = f.params[0]['name']
+        defs = h20._single_defs(g)
+
+        def resolve(x, depth=0):
+            v = h20.lvar(x)
+            if v is not None and v['name'] in defs and depth < 6 and v['name'] != wp:
+                return resolve(defs[v['name']]['rhs'], depth + 1)
+            return x
+
+        def own_tree(t):
+            """&<wp>->inotify->watches, the instance pointer possibly cached in a local"""
+            t = strip(resolve(t))
+            if not (isinstance(t, dict) and t.get('k') == 'addr' and last_member(t['e']) == (INST, 'watches')):
+                return False
+            m = strip(t['e'])
+            if not m.get('arrow'):
+                return False
+            inst = strip(resolve(m['base']))
+            return isinstance(inst, dict) and inst.get('k') == 'member' and (inst.get('record'), inst['field']) == (WATCH, 'inotify') \
+                and inst['arrow'] and canon(inst['base']) == wp
+
+        def own_node(n):
+            n = strip(resolve(n))
+            return isinstance(n, dict) and n.get('k') == 'addr' and last_member(n['e']) == (WATCH, 'an') \
+                and strip(n['e']).get('arrow') and canon(strip(n['e'])['base']) == wp
+        sites = [e for e in g.events() if e['ev'] == 'call' and e.get('callee') == prim and len(e.get('args', [])) >= 2
+                 and own_tree(e['args'][0]) and own_node(e['args'][1])]
+        if prim == 'iv_avl_tree_delete':
+            from ..core import must_pass
+            mp = must_pass(g, lambda e: any(e is x for x in sites))
+            pts = [(pb, pi) for (pb, pi, _) in exits_of(g)] + [(g.exit, 0)]
+            ctx.ob('R-C20c', 'watch_unregister:leaves-instance-tree', bool(sites) and all(mp.get(pt, True) for pt in pts),
+                   loc=sites[0]['loc'] if sites else f.loc,
+                   detail='every return of iv_inotify_watch_unregister is reached through iv_avl_tree_delete(&w->inotify->watches, &w->an)', fn=f.q)
+            continue
+        # registration: at the insert the watch's wd holds what inotify_add_watch returned
+        kernel = {n for n, d in defs.items() if isinstance(strip(d['rhs']), dict) and strip(d['rhs']).get('k') == 'call'
+                  and strip(d['rhs']).get('callee') == 'inotify_add_watch'}
+
+        def tr(e, st):
+            if e['ev'] == 'store' and last_member(e['lhs']) == (WATCH, 'wd'):
+                r = strip(e.get('rhs')) if 'rhs' in e and e.get('op') == '=' else None
+                own = canon(strip(e['lhs'])['base']) == wp and strip(e['lhs']).get('arrow')
+                if own and isinstance(r, dict) and ((r.get('k') == 'call' and r.get('callee') == 'inotify_add_watch') or
+                                                     (h20.lvar(r) is not None and h20.lvar(r)['name'] in kernel)):
+                    return True
+                return False
+            return st
+        _, ev_in = forward(g, False, tr, lambda a, b: a and b)
+        ctx.ob('R-C20a', 'watch_register:keyed-by-kernel-wd', bool(sites) and all(ev_in.get((e['_b'], e['_i']), False) for e in sites),
+               loc=sites[0]['loc'] if sites else f.loc,
+               detail='the watch enters the tree of its own instance (iv_avl_tree_insert(&w->inotify->watches, &w->an)) with w->wd holding '
+                      'the descriptor inotify_add_watch returned', fn=f.q)
+
+
+def init_complete(ctx):
+    """INIT-COMPLETE, local path-sensitive variant of generic.init_complete for the two inotify object kinds:
+    on every path of the registration function on which the object goes live (the instance's fd is handed to
+    iv_fd_register*, the watch's node to iv_avl_tree_insert) every library-private leaf field has been written,
+    by the registration function or on every path of the kind's INIT function.  "Goes live" replaces the
+    classification of return values, so result variables, ternary returns and early-return/if-block shapes do not
+    matter; sub-objects reached through a local holding their address are followed."""
+    prog = ctx.prog
+    kinds = {K['rec']: K for K in generic.OBJECT_KINDS if K['rec'] in (INST, WATCH)}
+    live = {
+        INST: lambda e, ap: e.get('callee') in ('iv_fd_register', 'iv_fd_register_try') and e.get('args') and ap(e['args'][0]) == 'fd',
+        WATCH: lambda e, ap: e.get('callee') == 'iv_avl_tree_insert' and len(e.get('args', [])) >= 2 and ap(e['args'][1]) == 'an',
+    }
+    for rec in (INST, WATCH):
+        K = kinds.get(rec)
+        if K is None or rec not in prog.records:
+            raise AnalysisBroken('object kind %s unknown' % rec)
+        leaves = h20.private_leaves(prog, rec, K['user'], generic.KIND_RECORDS)
+        winit = frozenset()
+        if K['init'] and prog.has_fn(K['init']):
+            # the INIT function has no publication point: what it writes on every path to its exits
+            winit, _, _ = h20.live_written(prog, prog.fn(K['init']), lambda e, ap: False, generic.WRITE_VIA_ADDR, initially_live=True)
+        wreg = None
+        regs = [r for r in K['reg'] if prog.has_fn(r)]
+        if not regs:
+            raise AnalysisBroken('register function of %s not found' % rec)
+        for r in regs:
+            f = prog.fn(r)
+            w, n, marker = h20.live_written(prog, f, live[rec], generic.WRITE_VIA_ADDR)
+            if not marker or n == 0:
+                raise AnalysisBroken('%s: the point at which the %s goes live was not found' % (r, rec))
+            wreg = w if wreg is None else (wreg & w)
+        for leaf in leaves:
+            ok = h20.covered(wreg | winit, leaf)
+            ctx.ob('R-C20d', '%s.%s' % (rec, leaf), ok, loc=prog.fn(regs[0]).loc,
+                   detail=('written by %s on every path on which the object goes live' % ('INIT' if h20.covered(winit, leaf) else 'registration'))
+                   if ok else 'private field is not written on some path of %s on which the %s goes live, nor by %s'
+                              % ('/'.join(regs), rec, K['init'] or 'an INIT function'), fn=prog.fn(regs[0]).q)
+
